@@ -313,12 +313,38 @@ def run(ctx, rep):
                 rep.ok("C17.5", cons, "a subcircuit block always starts with a prepare", fi.loc())
             else:
                 rep.violation("C17.5", cons, "a subcircuit block must report that it starts with a prepare (otherwise it is wrapped in a second prepare/measure pair)", fi.loc())
+        elif c.name == "QBlock":
+            delegates = any(isinstance(r.value, (ast.BoolOp, ast.Call)) and any(isinstance(m, ast.Call) and isinstance(m.func, ast.Attribute) and m.func.attr == "starts_with_prepare" and isinstance(m.func.value, ast.Subscript) for m in ast.walk(r.value)) for r in rets)
+            if delegates:
+                rep.ok("C17.5", cons, "a block starts with a prepare iff its first statement does (recursively)", fi.loc())
+            else:
+                rep.violation("C17.5", cons, "QBlock.starts_with_prepare does not delegate to its first statement: a body whose first statement is a nested block that begins with a prepare/subcircuit is wrapped in a second prepare/measure pair", fi.loc())
         elif "GateCall" in c.name:
             ok = rets and all(isinstance(r.value, ast.Compare) and isinstance(r.value.ops[0], ast.Eq) and {"name"} <= {m.attr for m in ast.walk(r.value) if isinstance(m, ast.Attribute)} for r in rets)
             if ok:
                 rep.ok("C17.5", cons, "compares the gate's name with the prepare gate", fi.loc())
             else:
                 rep.violation("C17.5", cons, "a gate call must compare its own name with the prepare gate's name", fi.loc())
+
+
+    # ------------------------------------------------------------ C17.6
+    rep.rule("C17.6", "Q objects used as identity keys when naming lets/registers have identity equality", floor=2)
+    for n in ast.walk(cfs.node):
+        if isinstance(n, ast.If) and isinstance(n.test, ast.Call) and isinstance(n.test.func, ast.Name) and n.test.func.id == "isinstance" and len(n.test.args) == 2:
+            obj, klass = n.test.args
+            rets = [s_ for s_ in n.body if isinstance(s_, ast.Return) and isinstance(s_.value, ast.Subscript) and isinstance(s_.value.slice, ast.Name) and isinstance(obj, ast.Name) and s_.value.slice.id == obj.id]
+            if not rets:
+                continue
+            r = ix.resolve_expr(QS_MOD, klass)
+            if not r or r[0] != "class":
+                continue
+            k = r[1]
+            cons = cls_construct(ix, k, "identity-key")
+            eqm = ix.find_method(k, "__eq__") or ix.find_method(k, "__hash__")
+            if eqm is not None:
+                rep.violation("C17.6", cons, f"{ix.classes[k].name} objects are the keys of `{ast.unparse(rets[0].value.value)}` in circuit_from_stack, but the class defines {eqm.name}: two distinct anonymous objects with equal contents share one key, so every use resolves to the last one", eqm.loc())
+            else:
+                rep.ok("C17.6", cons, "no __eq__/__hash__: distinct objects are distinct keys", ix.classes[k].loc())
 
 
 def display_lengths(node, tree, nt_len) -> Optional[Set[int]]:
